@@ -22,6 +22,7 @@ type Engine struct {
 	AllPkgs map[string]*types.Package
 	Funcs   map[string]*ssa.Function // canonical key -> function
 	CS      *Contracts
+	chanMsgs map[string]*ChanSpec
 
 	ctr      int
 	decls    map[string]string
@@ -118,6 +119,46 @@ func Load(repoDir, specDir string, patterns []string) (*Engine, error) {
 	}
 	for _, p := range pkgs {
 		addPkg(p.Types)
+	}
+	// `type A B` with B a struct type: A and B share one *types.Struct; their objects live in
+	// the same heap components and share the contracts of B's type block. Canonical = the type
+	// whose declaration directly precedes the struct's first field.
+	structCanon = map[string]string{}
+	for _, p := range pkgs {
+		if !strings.HasPrefix(p.PkgPath, "github.com/IrineSistiana/mosdns") {
+			continue
+		}
+		groups := map[*types.Struct][]*types.TypeName{}
+		sc := p.Types.Scope()
+		for _, n := range sc.Names() {
+			tn, ok := sc.Lookup(n).(*types.TypeName)
+			if !ok || tn.IsAlias() {
+				continue
+			}
+			if s, ok := tn.Type().Underlying().(*types.Struct); ok && s.NumFields() > 0 {
+				groups[s] = append(groups[s], tn)
+			}
+		}
+		for s, tns := range groups {
+			if len(tns) < 2 {
+				continue
+			}
+			f0 := s.Field(0).Pos()
+			var best *types.TypeName
+			for _, tn := range tns {
+				if tn.Pos() < f0 && (best == nil || tn.Pos() > best.Pos()) {
+					best = tn
+				}
+			}
+			if best == nil {
+				continue
+			}
+			for _, tn := range tns {
+				if tn != best {
+					structCanon[tn.Pkg().Path()+"."+tn.Name()] = best.Pkg().Path() + "." + best.Name()
+				}
+			}
+		}
 	}
 	for f := range ssautil.AllFunctions(prog) {
 		if f.Synthetic != "" && !strings.Contains(f.Synthetic, "instance") {
@@ -253,6 +294,8 @@ func (E *Engine) resolveCType(ctx *FileCtx, t *CType) types.Type {
 		return types.NewSlice(E.resolveCType(ctx, t.Elem))
 	case "map":
 		return types.NewMap(E.resolveCType(ctx, t.Key), E.resolveCType(ctx, t.Elem))
+	case "emptystruct":
+		return types.NewStruct(nil, nil)
 	}
 	if t.Pkg == "" {
 		switch t.Name {
